@@ -14,9 +14,10 @@ def run(chk, replay=None):
         sc = json.load(open(replay))["replay"]["script"]
         sendlib.run_and_report(chk, [sc], "replay", ("C10/",))
         return
-    for cfg, must in (("MC_RoundRobin_ok", True), ("MC_RoundRobin_push_front", False), ("MC_RoundRobin_push_twice", False), ("MC_RoundRobin_no_push_back", False)):
+    for cfg, must in (("MC_RoundRobin_ok", True), ("MC_RoundRobin_push_front", False), ("MC_RoundRobin_push_twice", False), ("MC_RoundRobin_no_push_back", False),
+                      ("MC_RoundRobin_dup_on_rejoin", False), ("MC_RoundRobin_pop_before_send", False)):
         r = vlib.tlc("RoundRobin", cfg + ".cfg", chk.wd, timeout=900, coverage=must)
-        (chk.model_must_hold if must else chk.model_must_fail)(r, "RoundRobin " + cfg + (": window-of-n-distinct and joiner bound over all join/vanish orders, 4 peers, 8 sends" if must else " (spec mutant)"))
+        (chk.model_must_hold if must else chk.model_must_fail)(r, "RoundRobin " + cfg + (": window-of-n-distinct and joiner bound over all join / rejoin / supersede / vanish orders and abandoned sends, 3 identities, 6 sends" if must else " (the pinned tree's mechanism or a spec mutant: counterexample exists)"))
     seqs = rrlib.gen_seqs(chk, sendlib.RR_OPS, 7 if thorough else 6, [], "rr")
     scen = 0
     for t in ("PUSH", "DEALER", "REQ"):
@@ -26,6 +27,13 @@ def run(chk, replay=None):
         for s in fam: chk.case(("rr", t, s["scen"]))
         chk.sample({"kind": "history (TLC-enumerated)", "sock": t, "ops": [o["op"] for o in fam[len(fam) // 2]["ops"]][:14]})
         sendlib.run_and_report(chk, fam, "c10-" + t, ("C10/",))
+    seqs_id = [q for q in rrlib.gen_seqs(chk, sendlib.RR_OPS_ID, 8 if thorough else 7, ["cancel", "rejoin", "break"], "rrid") if ("rejoin" in q or "cancel" in q) and q.count("send") >= 3 and q[0] == "join"]
+    for t in ("PUSH", "DEALER", "REQ"):
+        fam = []
+        for seq in seqs_id:
+            scen += 1; fam.append(sendlib.rr_script(seq, t, scen, idents=True))
+        for s in fam: chk.case(("rrid", t, s["scen"]))
+        sendlib.run_and_report(chk, fam, "c10id-" + t, ("C10/",))
     rnd = []
     for t in ("PUSH", "DEALER", "REQ"):
         for i in range(800 if thorough else 120):
